@@ -64,3 +64,16 @@ Theorem C03_completed_iff_terminal : forall c ops, hist_ok ops -> forall prev r 
   (forall p, prev = Some p -> r_status r <> r_status p -> is_terminal (ec_graph c) (r_status r) = true -> r_state r = RSCompleted).
 Proof. exact p_completed_terminal. Qed.
 Print Assumptions C03_completed_iff_terminal.
+
+(* ACCEPTED MEANS WRITTEN, for EVERY state (world, fault plan, lease, stale reads included): a Pause / Resume / Cancel / DeleteData
+   through the API that returned nil was allowed by the table from the state the controller read, and has left the run stored in
+   the target state, one version on, at the same status, as the last committed write — a controller that validates against
+   anything but the record it holds, or reports success without the write, breaks this (proofs/StoreOk.v) *)
+From WF Require Import model.Base model.EngineBase model.Engine proofs.StoreOk.
+Theorem C03_accepted_means_written : forall c run o s s',
+  api_ctl c run o s = (Ok tt, s') ->
+  exists r0 r, rs_table (r_state r0) (ctl_target o) = true /\ r_run r0 = run /\
+               lookup_run (o_w s') run = Some r /\ r_state r = ctl_target o /\ r_ver r = r_ver r0 + 1 /\ r_status r = r_status r0 /\
+               last (w_hist (o_w s')) r = r /\ w_hist (o_w s') <> [].
+Proof. exact ctl_success_persisted. Qed.
+Print Assumptions C03_accepted_means_written.
